@@ -1264,14 +1264,36 @@ func (s *Sim) NextSeq() int64 { s.seq++; return s.seq }
 // instant: a goroutine selecting on several timer channels would otherwise be
 // woken in an order that depends on channel addresses (allocator), which is
 // not reproducible.
+//
+// Which of two timers due at the same nominal instant fires first is real
+// nondeterminism (Go's select picks at random among ready channels), so it is
+// explored: per run the offsets either grow with the creation order (a timer
+// created earlier fires first; always so for workload variant 0) or shrink
+// with it (created later fires first). The mode comes from the out-of-band
+// workload variant, so no tape position is consumed.
 func timerEps() time.Duration {
 	s := active.Load()
 	if s == nil {
 		return 0
 	}
 	s.timerSeq++
-	return time.Duration(1 + s.timerSeq%999983)
+	return s.epsOf(s.timerSeq)
 }
+
+const epsMod = 999983
+
+func (s *Sim) epsOf(seq int64) time.Duration {
+	if s.Tape != nil && (s.Tape.Variant>>20)&1 == 1 {
+		return time.Duration(epsMod - seq%epsMod)
+	}
+	return time.Duration(1 + seq%epsMod)
+}
+
+// TimerEpsAfter returns the offset that the k-th timer (k >= 1) created by
+// simulated code after this call will get, without consuming it, so that a
+// harness can compute the exact fake instants at which the tickers created by
+// the next constructor call will fire.
+func (s *Sim) TimerEpsAfter(k int) time.Duration { return s.epsOf(s.timerSeq + int64(k)) }
 
 // TimerEps is timerEps for the clock shim.
 func TimerEps() time.Duration { return timerEps() }
@@ -1291,12 +1313,8 @@ func AfterFunc(d time.Duration, f func()) *time.Timer {
 	return time.AfterFunc(d+timerEps(), func() { s.GoForeign(node, "afterfunc", f) })
 }
 
-// NextTimerEps returns the offset the next timer created by simulated code will
-// get (without consuming it), so that a harness can compute the exact fake
-// instants at which a ticker created by the next constructor call will fire:
-// the k-th timer created after this call gets NextTimerEps()+k-1 nanoseconds
-// (modulo 999983).
-func (s *Sim) NextTimerEps() time.Duration { return time.Duration(1 + (s.timerSeq+1)%999983) }
+// NextTimerEps is TimerEpsAfter(1).
+func (s *Sim) NextTimerEps() time.Duration { return s.TimerEpsAfter(1) }
 
 func init() {
 	// make math/rand.Seed effective again (Go >= 1.24 ignores it by default)
